@@ -233,3 +233,46 @@ extern "C" void h_c04_getbasis_nobasis() { check(NOBASIS); vp_cover(1); }
 extern "C" void h_c04_getbasis_stored() { check(STORED); vp_cover(1); }
 extern "C" void h_c04_getbasis_column() { check(COLREP); vp_cover(1); }
 extern "C" void h_c04_getbasis_row() { check(ROWREP); vp_cover(1); }
+
+// C04-O6: setBasis while the real LP is not loaded stores the arrays; every query then returns exactly what was set
+extern "C" void h_c04_setbasis_stored()
+{
+   static Script sc;
+   draw_bounds(sc.d);
+   int had = vp_int_in(0, 1);
+   int rs[VNR], cs[VNC];
+   for(int i = 0; i < VNR; ++i) rs[i] = vp_int_in(Solver::ON_UPPER, Solver::UNDEFINED);
+   for(int j = 0; j < VNC; ++j) cs[j] = vp_int_in(Solver::ON_UPPER, Solver::UNDEFINED);
+#ifdef VP_NATIVE
+   SoPlex* sp = new SoPlex();
+   sp->setIntParam(SoPlex::VERBOSITY, 0);
+   DSVectorBase<double> e(1);
+   for(int j = 0; j < VNC; ++j) sp->addColReal(LPColBase<double>(0.0, e, sc.d.up[j], sc.d.lo[j]));
+   for(int i = 0; i < VNR; ++i) sp->addRowReal(LPRowBase<double>(sc.d.lhs[i], e, sc.d.rhs[i]));
+   sp->_isRealLPLoaded = false;
+   sp->_hasBasis = had;
+#else
+   SoPlex* sp = &mem.sp;
+   stmem.st._realParamValues[SoPlex::INFTY] = (double)infinity;
+   sp->_currentSettings = &stmem.st;
+   new(&sp->_basisStatusRows) DataArray<VS>(0, VNR);       // empty, capacity for the LP (no reallocation)
+   new(&sp->_basisStatusCols) DataArray<VS>(0, VNC);
+   LP* lp = new LP();
+   build_bounds(*lp, sc.d);
+   sp->_realLP = lp;
+   sp->_isRealLPLoaded = false;
+   sp->_hasBasis = had;
+#endif
+   VS rin[VNR], cin[VNC];
+   for(int i = 0; i < VNR; ++i) rin[i] = (VS)rs[i];
+   for(int j = 0; j < VNC; ++j) cin[j] = (VS)cs[j];
+   sp->setBasis(rin, cin);
+   vp_assert(sp->hasBasis(), 1);
+   vp_assert(!sp->_isRealLPLoaded, 2);
+   vp_assert(sp->_basisStatusRows.size() == VNR && sp->_basisStatusCols.size() == VNC, 3);
+   VS rout[VNR], cout_[VNC];
+   sp->getBasis(rout, cout_);
+   for(int i = 0; i < VNR; ++i) { vp_assert(rout[i] == rs[i], 4); vp_assert(sp->basisRowStatus(i) == rs[i], 5); vp_assert(rin[i] == rs[i], 6); }
+   for(int j = 0; j < VNC; ++j) { vp_assert(cout_[j] == cs[j], 7); vp_assert(sp->basisColStatus(j) == cs[j], 8); vp_assert(cin[j] == cs[j], 9); }
+   vp_cover(1);
+}
